@@ -254,7 +254,7 @@ func init() {
 		o.MinSites(2)
 	})
 
-	reg("C19", "C19.4", "T1,T5", "NotifyMsg: undecodable → drop; unknown key → drop; otherwise Merge exactly the addressed state with the Part's data; states read under the lock", func(o *Ob) {
+	notifyMsgRule := func(o *Ob) {
 		e := o.E
 		fn := o.Fn("(*am/cluster.delegate).NotifyMsg")
 		um := o.One(e.Calls(fn, "proto.Unmarshal"), "unmarshal", "NotifyMsg must decode the Part", fn)
@@ -271,9 +271,12 @@ func init() {
 		n := o.LockedAccesses("am/cluster.Peer", "states", "mtx", map[string]string{"am/cluster.Create": "constructor"})
 		o.Check(n >= 4, "states-accesses", "implausibly few accesses to Peer.states", nil)
 		o.MinSites(4)
-	})
+	}
+	reg("C19", "C19.4", "T1,T5", "NotifyMsg: undecodable → drop; unknown key → drop; otherwise Merge exactly the addressed state with the Part's data; states read under the lock", notifyMsgRule)
+	reg("C09", "C09.6", "T1,T5", "a gossiped silence update reaches the silence state: NotifyMsg merges exactly the addressed state with the Part's data", notifyMsgRule)
+	reg("C10", "C10.8", "T1,T5", "a gossiped log entry reaches the log: NotifyMsg merges exactly the addressed state with the Part's data", notifyMsgRule)
 
-	reg("C19", "C19.5", "T8", "full-state exchange: every part is merged independently (no exit from the parts loop other than exhaustion); LocalState contains every registered state", func(o *Ob) {
+	fullStateRule := func(o *Ob) {
 		e := o.E
 		fn := o.Fn("(*am/cluster.delegate).MergeRemoteState")
 		mg := o.One(e.Calls(fn, "invoke:am/cluster.State.Merge"), "merge", "MergeRemoteState must merge the parts", fn)
@@ -323,7 +326,10 @@ func init() {
 			o.Check(!loopBackWithout(o, ll, IsInstr(app), e.CutContradicting(mOK)), "local-skip", "a state can be left out of the full state", app)
 		}
 		o.MinSites(2)
-	})
+	}
+	reg("C19", "C19.5", "T8", "full-state exchange: every part is merged independently (no exit from the parts loop other than exhaustion); LocalState contains every registered state", fullStateRule)
+	reg("C09", "C09.7", "T8", "the full-state exchange repairs lost gossip: every part is merged independently, the local state contains every registered state", fullStateRule)
+	reg("C10", "C10.9", "T8", "the full-state exchange repairs lost gossip: every part is merged independently, the local state contains every registered state", fullStateRule)
 
 	reg("C19", "C19.7", "T2,T5", "every mutex acquired in the cluster package is released on every return path (a leaked read lock blocks AddState and then all message handling)", func(o *Ob) {
 		e := o.E
